@@ -57,16 +57,16 @@ var propSpecs = map[string]PropSpec{
 	"C12": {Profile: Profile{MaxCap: 8, MaxOps: 14, Backends: bothBackends, Rejects: 100, DetBias: 800, Sign: 120},
 		Kinds: kinds("file", "hdr", "obj", "sg", "md", "shape"), Cases: [2]int{250, 4000}, TwoRuns: true,
 		Corr: "corr.C12.bytes (model bytes with explicit clock parameter = library bytes)"},
-	"C13": {Profile: Profile{MaxCap: 6, MaxOps: 12, Queries: 14, Backends: []string{"buf"}, Rejects: 60, DetBias: 900, Foreign: 150},
+	"C13": {Profile: Profile{MaxCap: 6, MaxOps: 12, Queries: 14, Backends: []string{"buf"}, Rejects: 60, DetBias: 900, Foreign: 150, TornHeader: true},
 		Kinds: kinds("q", "shape"), Cases: [2]int{400, 8000}, Oracles: []string{"C13"},
 		Corr: "corr.C13.queries (GetDescriptors/GetDescriptor results for every selector tuple)"},
-	"C09": {Profile: Profile{MaxCap: 6, MaxOps: 10, BigData: true, Backends: bothBackends, Rejects: 60, DetBias: 600, FailReaders: true, Sign: 100, Foreign: 120},
+	"C09": {Profile: Profile{MaxCap: 6, MaxOps: 10, BigData: true, Backends: bothBackends, Rejects: 60, DetBias: 600, FailReaders: true, Sign: 100, Foreign: 120, TornHeader: true},
 		Kinds: kinds("res", "io", "file", "shape"), Cases: [2]int{220, 4000}, Oracles: []string{"C09"},
 		Corr: "corr.C09.io_plan (the mutating calls each operation issues = the model's plan, call for call; bytes after every step)"},
 	"C15": {Profile: Profile{MaxOps: 12, Cli: true},
 		Kinds: kinds("cli", "hdr", "obj", "file", "shape"), Cases: [2]int{160, 3000}, Oracles: []string{"C15"},
 		Corr: "corr.C15.siftool (exit status, dump output and the file's full view after every siftool invocation = Model/Siftool.lean composed with the library model)"},
-	"C14": {Profile: Profile{MaxCap: 6, MaxOps: 20, BigData: true, Backends: []string{"buf"}, Rejects: 120, DetBias: 1000, FailReaders: true},
+	"C14": {Profile: Profile{MaxCap: 6, MaxOps: 20, BigData: true, Backends: []string{"buf"}, Rejects: 120, DetBias: 1000, FailReaders: true, Truncs: true},
 		Kinds: kinds("res", "hdr", "obj", "file", "rl", "shape", "st"), Cases: [2]int{350, 6000}, Backends: true,
 		Corr: "corr.C14.backends (Lean Buffer model = sif.Buffer, Lean file model = os.File, same histories)"},
 }
@@ -191,7 +191,8 @@ func runHistory(dir string, seed uint64, spec PropSpec, shipped string) (*Case, 
 		}
 		return obs
 	}
-	obsOp := func() *Op { return &Op{Kind: "obs", Reload: spec.Profile.ObsReload, Inv: true} }
+	truncated := false // once the file has been cut short the placement invariant is not expected to hold
+	obsOp := func() *Op { return &Op{Kind: "obs", Reload: spec.Profile.ObsReload, Inv: !truncated} }
 	if spec.Profile.Cli {
 		// C15: a history of siftool invocations on one image file
 		if r.Chance(1, 8) {
@@ -303,7 +304,24 @@ func runHistory(dir string, seed uint64, spec PropSpec, shipped string) (*Case, 
 	emit(obsOp())
 	n := 1 + r.Intn(spec.Profile.MaxOps)
 	for k := 0; k < n && e.f != nil; k++ {
-		emit(g.nextOp(e.f))
+		op := g.nextOp(e.f)
+		if op.Kind == "ftrunc" {
+			truncated = true
+		}
+		var hdr0 []byte
+		if spec.Profile.TornHeader && op.Kind == "add" {
+			if b := e.storeBytes(); len(b) >= 128 {
+				hdr0 = append([]byte(nil), b[:128]...)
+			}
+		}
+		obs := emit(op)
+		if hdr0 != nil && e.f != nil && len(obs) > 0 && obs[0] == "res ok" && r.Chance(1, 5) {
+			// the add was interrupted between its descriptor-table write and its header write, and
+			// the image was opened again: new table, old header (stale counters and data size)
+			emit(&Op{Kind: "patch", Sites: []PatchSite{{Off: 0, B: hdr0}}})
+			truncated = true // the header's accounting no longer matches the table: WF is not expected
+			g.count("op:reopened-after-torn-add")
+		}
 		if e.f == nil {
 			break
 		}
